@@ -229,7 +229,8 @@ def main(chk: core.Check) -> int:
     chk.coverage["rule"] = "evaluations = (file, branch, steps_per_file) lazy reads compared with eager reads + factory form/content probes"
     chk.assumptions += ["dask graph construction and uproot's positional form-to-buffer mapping are third-party and outside the model",
                         "m_recCgemClusterCol cannot be read lazily (Bes3CgemClusterColFactory.make_awkward_form raises NotImplementedError): recorded finding, reproduced on every run"]
-    chk.prove()
+    core.regen_rootpy(chk)
+    chk.prove(modules=["C18", "RootTie"])
     try:
         digi_fields = lazy_vs_eager(chk, thorough) or []
         forms_vs_contents(chk)
